@@ -201,6 +201,9 @@ structure St where
   poolAddr : Addr := []
   /-- coins known to have been sent to the pool's address by plain transfers -/
   surplus : Int := 0
+  /-- the history started from a genesis whose pool already misses the unstaking validators' tokens: the pool
+  equation is reported once (known finding) and not monitored for the rest of this history -/
+  poolOff : Bool := false
   deriving Inhabited
 
 def init (prop : String) : St := { prop := prop }
@@ -226,7 +229,7 @@ def fails (b : Bool) (sig detail : String) : List Fail := if b then [] else [(si
 
 /-- C19 -/
 def checkC19 (σ : St) (post : State) : List Fail :=
-  fails (Spec.poolOk post σ.surplus) "pool-ne-sum-staked" s!"pool={post.pool} sum={Spec.sumBonded post.vals} known-surplus={σ.surplus}"
+  fails (σ.poolOff || Spec.poolOk post σ.surplus) "pool-ne-sum-staked" s!"pool={post.pool} sum={Spec.sumBonded post.vals} known-surplus={σ.surplus}"
 
 /-- C21 -/
 def checkC21 (post : State) (anomalies : List String) : List Fail :=
@@ -362,8 +365,15 @@ def step (σ : St) (pre post : List String) : St × Verdict :=
       | some us, some pa, some t =>
         let pp := parseState ws
         -- the genesis of a history: nothing to compare with, the state rules apply
-        let σ := { σ with cur := none, poolAddr := pa, surplus := 0 }
-        judge σ "genesis" 1 t {} pp { model := pp.st } us
+        let σ := { σ with cur := none, poolAddr := pa, surplus := 0, poolOff := false }
+        -- C19: InitGenesis leaves the tokens of unstaking genesis validators out of the pool
+        let unst := ((pp.st.vals.filter fun p => p.2.status = .unstaking).map (·.2.tokens)).sum
+        let deficit := Spec.sumBonded pp.st.vals - pp.st.pool
+        let known : Bool := decide (deficit ≠ 0) && decide (deficit = unst)
+        let sur : Int := if known then 0 - deficit else 0
+        let σ := { σ with poolOff := known }
+        let ex : List Fail := if known then [("genesis-unstaking-not-in-pool", s!"pool={pp.st.pool} staked+unstaking={Spec.sumBonded pp.st.vals} unstaking={unst}")] else []
+        judge σ "genesis" 1 t {} pp { model := pp.st, extraProp := "C19", surplus := sur, extra := ex } us
       | _, _, _ => (σ, .bad "genesis args")
     | _ => (σ, .bad "genesis result")
   | _ =>
